@@ -719,10 +719,39 @@ fn dump_crate<'tcx>(tcx: TyCtxt<'tcx>) -> Vec<(&'static str, J)> {
         let ty = tcx.type_of(did).instantiate_identity().skip_norm_wip();
         let val = std::panic::catch_unwind(std::panic::AssertUnwindSafe(|| tcx.const_eval_poly(did)));
         if let Ok(Ok(val)) = val {
+            let mut value = const_value_json(tcx, val, ty, 0);
+            // `const TABLE: &[&str] = &[..]`: the table itself is the one promoted constant of the item
+            if matches!(value, J::Null) && matches!(ty.kind(), ty::Ref(..)) {
+                let proms = std::panic::catch_unwind(std::panic::AssertUnwindSafe(|| tcx.promoted_mir(did)));
+                if let Ok(proms) = proms {
+                    if proms.len() == 1 {
+                        let (idx, body) = proms.iter_enumerated().next().unwrap();
+                        let pty = body.return_ty();
+                        let pty = match pty.kind() { ty::Ref(_, inner, _) => *inner, _ => pty };
+                        let gid = rustc_middle::mir::interpret::GlobalId { instance: Instance::mono(tcx, did), promoted: Some(idx) };
+                        let pv = std::panic::catch_unwind(std::panic::AssertUnwindSafe(|| {
+                            tcx.const_eval_global_id(TypingEnv::fully_monomorphized(), gid, rustc_span::DUMMY_SP)
+                        }));
+                        if let Ok(Ok(pv)) = pv {
+                            // the promoted evaluates to a reference to the array: look through it
+                            let inner = match pv {
+                                mir::ConstValue::Scalar(rustc_middle::mir::interpret::Scalar::Ptr(ptr, _)) => {
+                                    let (prov, offset) = ptr.prov_and_relative_offset();
+                                    Some(mir::ConstValue::Indirect { alloc_id: prov.alloc_id(), offset })
+                                }
+                                other => Some(other),
+                            };
+                            if let Some(inner) = inner {
+                                value = const_value_json(tcx, inner, pty, 0);
+                            }
+                        }
+                    }
+                }
+            }
             consts.push(J::Obj(vec![
                 ("path", J::s(tcx.def_path_str(did))),
                 ("ty", J::s(ty_s(ty))),
-                ("value", const_value_json(tcx, val, ty, 0)),
+                ("value", value),
             ]));
         }
     }
